@@ -391,6 +391,9 @@ def run(ctx):
             else:
                 toks[j] = rng.choice(list(BIN_RANK) + ["a", "1"])
         cases.append((None, " ".join(toks), "malformed"))
+    groups = opaque_layout_cases(rng, 2 if ctx.tier == "quick" else 8)
+    judge_opaque(ctx, groups)
+    ctx.coverage["opaque_operand_layout_groups"] = len(groups)
     if st["model"]:
         bad_tie = judge(ctx, codes, cases, "C07")
     else:
@@ -407,6 +410,55 @@ def run(ctx):
         ctx.violation({"kind": "broken-tie", "broken": ctx.broken[:10], "log": st.get("log", "")[-3000:]},
                       "proof obligation or model/code correspondence no longer checks: " + "; ".join(ctx.broken[:3]),
                       no_input=True)
+
+
+OPAQUE_HEADS = [
+    ["if", "c", "{", "xs", "}", "else", "{", "ys", "}"],
+    ["match", "1", "{", "1", "=>", "inc", ",", "_", "=>", "dec", "}"],
+    ["{", "xs", "}"],
+    ["try", "{", "f", "}", "catch", "e", "{", "g", "}"],
+    ["if", "c", "{", "1", "}", "else", "if", "d", "{", "2", "}", "else", "{", "3", "}"],
+]
+OPAQUE_TAILS = [["[", "1", "]"], ["(", "41", ")"], [".", "len", "(", ")"], ["[", "0", "]", "(", "2", ")"], ["(", ")", "[", "i", "]"],
+                ["+", "1"], ["as", "int"], ["[", "1", "]", "*", "2"], ["(", "x", ")", "+", "y", "*", "z"], ["==", "b"], [".", "m", "[", "0", "]"]]
+
+
+def opaque_layout_cases(rng, n_layouts):
+    """Block-like operands (if / match / block / try) followed by postfix and infix operators: whatever whitespace and
+    comments separate the tokens, the tree is the one of the single-line text (layout irrelevance; no model involved)."""
+    out = []
+    for head in OPAQUE_HEADS:
+        for tail in OPAQUE_TAILS:
+            for pre in ([], ["-"], ["!"], ["a", "+"], ["("]):
+                toks = list(pre) + head + tail + ([")"] if pre == ["("] else [])
+                base = layout(toks, rng, 0)
+                variants = [layout(toks, rng, 1) for _ in range(n_layouts)]
+                # the separators a statement-level heuristic would look at: newline / comments directly behind the `}`
+                k = len(pre) + len(head)
+                for sep in ["\n", " // c\n", " /* a\n b */ ", "\r\n", "\n\n  "]:
+                    variants.append(" ".join(toks[:k]) + sep + " ".join(toks[k:]))
+                out.append((base, variants))
+    return out
+
+
+def judge_opaque(ctx, groups):
+    texts = [t for base, vs in groups for t in [base] + vs]
+    go = core.go_lines("parse", [core.xhex(t) for t in texts])
+    trees = {}
+    for t, g in zip(texts, go):
+        m = re.match(r"OK toks=(.*?) tree=(.*?) print=(\S+)$", g)
+        trees[t] = m.group(2) if m else g[:80]
+    for base, vs in groups:
+        ctx.count(case_key=("opaque", base), nontrivial=True)
+        if not trees[base].startswith("("):
+            ctx.broken.append(f"opaque-layout: the single-line text {base!r} does not parse: {trees[base]}")
+            continue
+        for v in vs:
+            ctx.count(case_key=("opaque", v), nontrivial=True)
+            if trees[v] != trees[base]:
+                ctx.violation({"kind": "expr", "text": v, "expected_tree": trees[base], "go_tree": trees[v], "single_line": base},
+                              f"C07 layout: tree of {v!r} is {trees[v]}, the same tokens on one line give {trees[base]}")
+                break
 
 
 def judge_go_only(ctx, codes, cases):
